@@ -1463,22 +1463,32 @@ class Explorer:
             self.stats.unknowns.append(label)
             return None
         m = msolver.model()
-        if getattr(self, 'div_terms', None) and not isinstance(cond, bool):
-            # prefer a counterexample in which no (C-style, unchecked) division has a zero denominator: such a model can be replayed in doubles
-            try:
-                s3 = z3.Solver()
-                s3.set('timeout', min(self.timeout_ms, 10000))
-                s3.add(*self.pc)
-                s3.add(neg)
-                seen_d = set()
-                for d_ in self.div_terms:
-                    if d_.get_id() not in seen_d:
-                        seen_d.add(d_.get_id())
-                        s3.add(d_ != 0)
-                if str(s3.check()) == 'sat':
-                    m = s3.model()
-            except z3.Z3Exception:
-                pass
+        if not getattr(self, 'fp_mode', False) and not getattr(self, 'str_mode', False) and hasattr(msolver, 'check'):
+            # prefer a counterexample that can be replayed in doubles: no (C-style, unchecked) division with a zero denominator, and
+            # real inputs of moderate magnitude (a model value like 1e-400 underflows to 0.0 and then violates its own bound)
+            nice = []
+            for v_ in self.names.values():
+                if z3.is_real(v_) and z3.is_const(v_):
+                    nice.append(z3.And(v_ <= 10 ** 6, v_ >= -10 ** 6, z3.Or(v_ == 0, v_ >= z3.RealVal('1/1000000'), v_ <= z3.RealVal('-1/1000000'))))
+            dz, seen_d = [], set()
+            for d_ in getattr(self, 'div_terms', []):
+                if d_.get_id() not in seen_d:
+                    seen_d.add(d_.get_id())
+                    dz.append(d_ != 0)
+            for extra in ([dz + nice, dz] if dz else [nice]):
+                if not extra:
+                    continue
+                try:
+                    s3 = z3.Solver()
+                    s3.set('timeout', min(self.timeout_ms, 5000))
+                    s3.add(*self.pc)
+                    s3.add(neg)
+                    s3.add(*extra)
+                    if str(s3.check()) == 'sat':
+                        m = s3.model()
+                        break
+                except z3.Z3Exception:
+                    pass
         model = {}
         for n, v in self.names.items():
             val = m.eval(v, model_completion=True)
